@@ -13,13 +13,14 @@ Notation Fl := (F O).
 Inductive gcase :=
 | CHist (bounds : list Fl) (ops : list (hop O))
 | CDist (fixed san : bool) (global : option (list Fl)) (name : list N) (ovs : list (override O))
+        (usfx : bool) (unit : option (list N))   (* set_enable_unit_suffix; unit the family is described with *)
 | CRoll (n dur : N) (ops : list (rop O))
 | CQuant (q : Fl) (fc fd : list N).             (* fc, fd: Display renderings of clamped, clamped*100 (oracle) *)
 
 Inductive gout :=
 | OHistNone                                              (* Histogram::new returned None *)
 | OHist (bounds : list Fl) (snaps : list (hsnap O))      (* bounds echoed by buckets(); one snapshot per op *)
-| ODist (ty : bool) (d : option (list Fl))               (* get_distribution_type = "histogram"; get_distribution *)
+| ODist (ty : bool) (d : option (list Fl)) (fam : list N) (* TYPE line says histogram; series rendered; TYPE-line name *)
 | ORoll (l : list (rout O))
 | OQuant (v : Fl) (label fc fd : list N)                 (* value(), label(), and the two renderings *)
 | OPanic.
@@ -30,10 +31,11 @@ Definition grun_case (c : gcase) : gout :=
                         | None => OHistNone
                         | Some h => OHist (h_bounds O h) (hrun O h ops)
                         end
-  | CDist fixed san global name ovs =>
+  | CDist fixed san global name ovs usfx unit =>
       let d := db_new O fixed san global ovs in
       let key := if san then sanitize_name name else name in
-      ODist (get_distribution_type O d key) (get_distribution O d key)
+      let '(fam, ty, dist) := render_family O d usfx unit key in
+      ODist ty dist fam
   | CRoll n dur ops => ORoll (rrun O (rs_new O n dur) ops)
   | CQuant q fc fd => let '(v, l) := qnew O q fc fd in OQuant v l fc fd
   end.
@@ -67,7 +69,7 @@ Definition gout_eqb (a b : gout) : bool :=
   match a, b with
   | OHistNone, OHistNone => true
   | OHist b1 s1, OHist b2 s2 => fl_list_same b1 b2 && list_eqb hsnap_same s1 s2
-  | ODist t1 d1, ODist t2 d2 => Bool.eqb t1 t2 && optb_same d1 d2
+  | ODist t1 d1 f1, ODist t2 d2 f2 => Bool.eqb t1 t2 && optb_same d1 d2 && str_eqb f1 f2
   | ORoll l1, ORoll l2 => list_eqb rout_same l1 l2
   | OQuant v1 l1 c1 d1, OQuant v2 l2 c2 d2 => fsame O v1 v2 && str_eqb l1 l2 && str_eqb c1 c2 && str_eqb d1 d2
   | _, _ => false
@@ -79,8 +81,12 @@ Definition gspec_ok (c : gcase) (o : gout) : bool :=
   | CHist [] _, OHistNone => true
   | CHist (b :: bs) ops, OHist bounds snaps =>
       fl_list_same bounds (b :: bs) && snaps_ok O (b :: bs) [] ops snaps
-  | CDist fixed san global name ovs, ODist ty d =>
+  | CDist fixed san global name ovs _ _, ODist ty d _ =>
+      (* series rendered: the buckets that apply to the METRIC name (none = quantile series) *)
       optb_same d (spec_choice O san global name ovs)
+      (* TYPE line: histogram exactly when buckets apply to the METRIC name, whatever the family name is *)
+      && Bool.eqb ty (match spec_choice O san global name ovs with Some _ => true | None => false end)
+      (* TYPE line agrees with the kind of series rendered (_bucket/+Inf vs quantile) *)
       && Bool.eqb ty (match d with Some _ => true | None => false end)
   | CRoll n dur ops, ORoll l => rspec_run O n dur (rspec0 O) ops l
   | CQuant q _ _, OQuant v label _ fd => quant_ok O q v label fd
@@ -91,7 +97,7 @@ Definition gspec_ok (c : gcase) (o : gout) : bool :=
 Definition gwf (c : gcase) : bool :=
   match c with
   | CHist _ _ => true
-  | CDist fixed _ _ _ _ => fixed
+  | CDist fixed _ _ _ _ _ _ => fixed
   | CRoll n dur _ => (0 <? n) && (0 <? dur)
   | CQuant _ _ _ => false      (* differential only: the label depends on the float-formatting oracle *)
   end.
@@ -135,8 +141,9 @@ Definition verdicts (l : list (N * case * out)) : list (N * bool * bool * option
 
 (* constructors at the instance, for cases.v *)
 Definition chist (b : list float) (ops : list (hop PF)) : case := CHist PF b ops.
-Definition cdist (fixed san : bool) (g : option (list float)) (name : list N) (ovs : list (matcher * list float)) : case :=
-  CDist PF fixed san g name ovs.
+Definition cdist (fixed san : bool) (g : option (list float)) (name : list N) (ovs : list (matcher * list float))
+  (usfx : bool) (unit : option (list N)) : case :=
+  CDist PF fixed san g name ovs usfx unit.
 Definition croll (n dur : N) (ops : list (rop PF)) : case := CRoll PF n dur ops.
 Definition hrec (s : float) : hop PF := HRec PF s.
 Definition hmany (l : list float) : hop PF := HMany PF l.
@@ -144,7 +151,7 @@ Definition radd (t : N) (v : float) : rop PF := RAdd PF t v.
 Definition rsnap (t : N) : rop PF := RSnap PF t.
 Definition ohistnone : out := OHistNone PF.
 Definition ohist (b : list float) (s : list (list N * N * float)) : out := OHist PF b s.
-Definition odist (ty : bool) (d : option (list float)) : out := ODist PF ty d.
+Definition odist (ty : bool) (d : option (list float)) (fam : list N) : out := ODist PF ty d fam.
 Definition oroll (l : list (rout PF)) : out := ORoll PF l.
 Definition opanic : out := OPanic PF.
 Definition cquant (q : float) (fc fd : list N) : case := CQuant PF q fc fd.
